@@ -30,6 +30,53 @@
 
 using namespace stir;
 
+// ------------------------------------------------------------------------------------------------ the stream seam
+// Stream-backed projection data sit on a stream buffer that the harness owns: ONE shared position for reading and writing, as a file has
+// (std::stringstream keeps two, and keeps them inside the uninstrumented libstdc++ where ThreadSanitizer cannot see them). Every seek,
+// read and write is a schedule point of the vomp scheduler (the same entry point as STIR_VERIF_POINT), so the explorer interleaves other
+// threads between a seek and the read that relies on it wherever STIR does not hold the PROJDATAFROMSTREAMIO critical section, and the
+// position / content are plain memory of this (instrumented) translation unit, so unsynchronised access is a ThreadSanitizer report.
+extern "C" void ucl_stir_verif_point(const char* site, const void* obj);
+class SharedPositionBuf : public std::streambuf
+{
+  std::vector<char> data; std::streamoff pos = 0;
+protected:
+  pos_type seekoff(off_type off, std::ios_base::seekdir dir, std::ios_base::openmode) override
+  {
+    ucl_stir_verif_point("stream.seek", this);
+    const std::streamoff base = dir == std::ios_base::beg ? 0 : dir == std::ios_base::cur ? pos : (std::streamoff)data.size();
+    if (base + off < 0) return pos_type(off_type(-1));
+    pos = base + off;
+    return pos_type(pos);
+  }
+  pos_type seekpos(pos_type p, std::ios_base::openmode m) override { return seekoff(off_type(p), std::ios_base::beg, m); }
+  std::streamsize xsgetn(char* s, std::streamsize n) override
+  {
+    ucl_stir_verif_point("stream.read", this);
+    const std::streamsize avail = std::max<std::streamoff>(0, (std::streamoff)data.size() - pos), k = std::min(n, avail);
+    if (k > 0) memcpy(s, data.data() + pos, (size_t)k);
+    pos += k;
+    return k;
+  }
+  std::streamsize xsputn(const char* s, std::streamsize n) override
+  {
+    ucl_stir_verif_point("stream.write", this);
+    if ((std::streamoff)data.size() < pos + n) data.resize((size_t)(pos + n), 0);
+    memcpy(data.data() + pos, s, (size_t)n);
+    pos += n;
+    return n;
+  }
+  int_type underflow() override { return pos < (std::streamoff)data.size() ? traits_type::to_int_type(data[(size_t)pos]) : traits_type::eof(); }
+  int_type uflow() override { char c; return xsgetn(&c, 1) == 1 ? traits_type::to_int_type(c) : traits_type::eof(); }
+  int_type overflow(int_type c) override { if (traits_type::eq_int_type(c, traits_type::eof())) return traits_type::not_eof(c); char ch = traits_type::to_char_type(c); xsputn(&ch, 1); return c; }
+  int sync() override { return 0; }
+};
+struct SharedPositionStream : std::iostream
+{
+  SharedPositionBuf buf;
+  SharedPositionStream() : std::iostream(nullptr) { this->init(&buf); }
+};
+
 // ------------------------------------------------------------------------------------------------ TSan report capture
 extern "C" {
 int __tsan_get_report_data(void* report, const char** description, int* count, int* stack_count, int* mop_count, int* loc_count,
@@ -236,7 +283,7 @@ static ObjSetup make_obj(bool cache, bool stream_data = false)
   else
     { // measured data behind ONE shared stream position (ProjDataFromStream): every read is a seek + read under the named critical section
       shared_ptr<ExamInfo> ex(new ExamInfo); ex->imaging_modality = ImagingModality::PT;
-      shared_ptr<std::iostream> str(new std::stringstream(std::ios::in | std::ios::out | std::ios::binary));
+      shared_ptr<std::iostream> str(new SharedPositionStream);
       s.data.reset(new ProjDataFromStream(ex, s.pdi, str));
     }
   { std::vector<double> v(small::all_bins(*s.pdi).size()); for (size_t i = 0; i < v.size(); ++i) v[i] = 1 + (i * 7) % 5; small::unflat(*s.data, v); }
@@ -446,7 +493,7 @@ static Body make_P(int store, int threads)
     if (store == 0) pd.reset(new ProjDataInMemory(ex, pdi));
     else
       {
-        shared_ptr<std::iostream> str(new std::stringstream(std::ios::in | std::ios::out | std::ios::binary));
+        shared_ptr<std::iostream> str(new SharedPositionStream);
         pd.reset(new ProjDataFromStream(ex, pdi, str));
       }
     // initial labelled content
